@@ -107,8 +107,14 @@ fn s_printed(t: &mut Tape, ctx: &mut Ctx) -> Result<(), Failure> {
     accepted_must_compile(t, &printed, ctx, "printer-output", false).map(|_| ())
 }
 
+fn s_fuzztext(t: &mut Tape, ctx: &mut Ctx) -> Result<(), Failure> {
+    let s = crate::fuzzglue::text_of_tape(t);
+    accepted_must_compile(t, &s, ctx, "fuzztext", false).map(|_| ())
+}
+
 pub fn streams() -> Vec<Stream> {
     let mut v = vec![
+        Stream { name: "fuzztext", kind: Kind::Tape { cases: |_| 0, max_len: 4096, f: s_fuzztext }, isolate: false },
         Stream { name: "mutants", kind: Kind::Tape { cases: |t: Tier| t.pick(150_000, 3_000_000), max_len: 120, f: s_mutants }, isolate: false },
         Stream { name: "printed", kind: Kind::Tape { cases: |t: Tier| t.pick(30_000, 600_000), max_len: 120, f: s_printed }, isolate: false },
     ];
